@@ -276,7 +276,7 @@ for t in ["u16", "i16", "u32", "i32", "u64", "i64", "u128", "i128"]:
       note="struct with #[serde(with = fixint::le/be)] field: exactly size_of bytes, byte i == the right 8 bits, decodes back, truncation -> UnexpectedEnd; every value")
 C10M = "postcard/src/lib.rs::verif_c10"
 for w in ["u8", "u16", "u32", "u64", "u128"]:
-    tier = "quick" if w in ("u8", "u32") else "thorough"
+    tier = "quick" if w in ("u8", "u16", "u32") else "thorough"
     K("C10.K.ser.crc_" + w, C10M, "verif_c10::ser_" + w, {"C10": "D"}, tier=tier,
       fns=["postcard::ser::flavors::crc::CrcModifier::try_push", "postcard::ser::flavors::crc::CrcModifier::finalize", "postcard::ser::flavors::crc::to_slice_" + w,
            "postcard::de::flavors::crc::take_from_bytes_" + w],
@@ -515,3 +515,16 @@ K("C11.K.eio.reader", C11E, "verif_c11e::eioreader_contract", {"C11": "D"}, labe
 K("C11.K.eio.writer", C11E, "verif_c11e::eio_writeflavor_contract", {"C11": "D"}, label="bounded(block<=3)", tier="thorough",
   fns=["postcard::ser::flavors::eio::WriteFlavor::try_push", "postcard::ser::flavors::eio::WriteFlavor::try_extend", "postcard::ser::flavors::eio::WriteFlavor::finalize"],
   note="eio::WriteFlavor over a model embedded_io::Write that accepts partial writes, becomes full or fails: Ok ==> the bytes reached the writer", **EIO)
+
+# ---------------------------------------------------------------- SeqAccess / MapAccess contracts (full usize domain)
+K("C01.K.seq_access", DEC, "verif_c04d::seq_access_contract", {"C01": "D", "C03": "D"}, fns=["postcard::de::deserializer::SeqAccess::next_element_seed"],
+  note="for EVERY remaining count (all of usize): Some(next element) and count-1 while > 0, else None without consuming input")
+K("C01.K.map_access", DEC, "verif_c04d::map_access_contract", {"C01": "D", "C03": "D"}, fns=["postcard::de::deserializer::MapAccess::next_key_seed", "postcard::de::deserializer::MapAccess::next_value_seed"],
+  note="for EVERY remaining count: key then value in order, entry counted exactly once")
+K("C01.K.seq_len_passed_through", DEC, "verif_c04d::seq_len_passed_through", {"C01": "D", "C03": "D"}, fns=[DES + "deserialize_map", DES + "deserialize_tuple"],
+  note="the decoded varint(usize) count (every usize) / the static arity reaches the visitor unchanged")
+
+for w in ["u8", "u16", "u32", "u64", "u128"]:
+    K("C10.K.small.crc_" + w, C10M, "verif_c10::small_" + w, {"C10": "D"},
+      fns=["postcard::ser::flavors::crc::to_slice_" + w, "postcard::de::flavors::crc::take_from_bytes_" + w, "postcard::ser::flavors::crc::CrcModifier::finalize", "postcard::de::flavors::crc::CrcModifier::finalize"],
+      note="EVERY width in the quick tier on a one-byte probe: frame == plain ++ LE(bitwise reference CRC), round trip, any corruption of any checksum byte -> BadCrc, truncated checksum rejected")
